@@ -194,6 +194,11 @@ def generate(rng, tier):
     for _ in range(200 if quick else 2000):
         strs.append(rng.choice(['', '-', '+', ' ', ' -']) + str(rng.getrandbits(rng.choice([4, 8, 16, 31, 32, 63, 64, 70])))
                     + rng.choice(['', '', ' ', '\n']))
+    # in-range values written with leading zeros: the text is longer than any canonical text of the width
+    for z in [0, 1, 42, 127, 128, -128, -129, 32767, 32768, -32768, 2 ** 31 - 1, 2 ** 31, -2 ** 31, 2 ** 63 - 1, 2 ** 63,
+              -2 ** 63, -2 ** 63 - 1] + [rng.getrandbits(rng.choice([3, 7, 15, 31, 63])) for _ in range(20 if quick else 300)]:
+        for k in (1, 2, 3, 5, 8, 12, 21, 40) if not quick else rng.sample((1, 2, 3, 5, 8, 12, 21, 40), 3):
+            strs.append(('-' if z < 0 else rng.choice(['', '+'])) + '0' * k + str(abs(z)))
     for s in strs:
         for t in INTEGRAL if not quick else rng.sample(INTEGRAL, 2):
             cases.append((STRING, t, s))
@@ -228,6 +233,14 @@ def generate(rng, tier):
         for tail in [' 10:15:30 UTC', ' 10:15:30 GMT', ' CET', ' T', ' xTy', ' 1T2 3', 'T10:15:30 UTC', 'T10:15:30 +01:00',
                      'T T', ' \t', 'T', ' ', '  10:15', 'T 10:15', ' EST5EDT', 'Tea time']:
             dstr.append(base + tail)
+    # ... or that looks like a time with a zone offset, a fraction, or arbitrary text over the characters of times and dates
+    tchars = '0123456789:-+.TZ '
+    for base in ['2019', '2019-3', '2019-03-05', '2020-2-29', '2019-2-29', '0001-01-01', '9999-12-31', '2019-00']:
+        for sep in (' ', 'T'):
+            for tail in ['10:15:30-08:00', '10:15:30+01:00', '10:15:30-08', '10:15-8', '10:15:30.123-0800', '10:15:30Z', '-', '--',
+                         '-1', '1-1', '10:15:30 -08:00', '2019-01-01'] + \
+                    [''.join(rng.choice(tchars) for _ in range(rng.randint(1, 10))) for _ in range(3 if quick else 40)]:
+                dstr.append(base + sep + tail)
     for s in dstr:
         cases.append((STRING, DATE, s))
     # numbers and booleans into float/double (float(value); exact below 2**53)
